@@ -350,3 +350,34 @@ def generator_construct_of(prog, fn):
     if not vs or len(vs) > 3:
         return fn.name
     return "+".join(sorted(vs))
+
+
+def error_dispatch(prog):
+    """(function, switch) of the VM's dispatch over ErrorHandler: in Interpreter::interpret itself
+    or in a private helper it calls (the error arm may have been extracted)."""
+    interp = prog.method("Interpreter", "interpret")
+    if interp is None:
+        raise CheckError("anchor Interpreter::interpret")
+    cands = [interp] + [prog.fns[c] for c in prog.call_edges(interp)
+                        if c in prog.fns and prog.fns[c].crate == "rusty_basic" and "interpreter::main" in c]
+    hits = []
+    for f in cands:
+        sws = [s for s in mir.enum_switches(prog, f.body) if s.adt.endswith("::ErrorHandler")]
+        for sw in sws:
+            hits.append((f, sw))
+    if len(hits) != 1:
+        raise CheckError("interpret: expected one match over ErrorHandler (in it or a helper), found %d" % len(hits))
+    return hits[0]
+
+
+def region_callee_paths_deep(prog, body, region, crate="rusty_basic", depth=1):
+    """callee paths of the calls in region, plus those inside private functions of the same crate
+    that are called there (an arm may have been turned into a call of a helper)."""
+    out = []
+    for _b, t in mir.region_calls(body, region):
+        out.append(mir.callee_path(t))
+        g = prog.fns.get(mir.callee_of(t))
+        if g is not None and depth > 0 and g.crate == crate and g.kind != "const" \
+                and g.file == getattr(body.fn, "file", None):
+            out += [mir.callee_path(t2) for _b2, t2 in g.body.calls()]
+    return out
